@@ -31,6 +31,14 @@ def leaf_array(mode, spec, fmt):
         return a
     if spec.get("kind") == "allnan":
         return empty_buffer_array(mode, 256, 256)
+    if spec.get("kind") == "faint" and mode == "RGBA":
+        # a few isolated, nearly transparent pixels of bright colour (the soft edge of a drawing) on a transparent tile: every 2x2 block
+        # they fall into averages to alpha 0 with a non-zero colour
+        a = np.zeros((256, 256, 4), dtype=np.uint8)
+        for i in range(1 + spec["salt"] % 3):
+            yy, xx = (spec["salt"] * 37 + i * 90) % 256, (spec["salt"] * 11 + i * 60) % 256
+            a[yy, xx] = [255, 40 + 5 * spec["salt"], 200, 1 + (spec["salt"] + i) % 3]
+        return a
     if spec.get("kind") == "constant" and mode in ("F32", "F64"):
         # every defined pixel has the same value (a saturated or padded region)
         a = np.full((256, 256), float(spec.get("offset", 0)) + 0.5 * spec["salt"], dtype=np.float32 if mode == "F32" else np.float64)
@@ -244,6 +252,8 @@ def cascade_cases(draw, tier, formats=None, want_range=False, modes=None, depth0
                 if want_range:
                     # only the recorded ranges are judged there: infinities of either sign (a third element 1 means -inf)
                     spec["inf"] = [e + [draw(st.integers(0, 1))] for e in spec["inf"]]
+        if mode == "RGBA" and draw(st.integers(0, 3)) == 0:
+            spec["kind"] = "faint"
         if mode in ("I16", "I32") and draw(st.booleans()):
             spec["big"] = True
         leaves.append(spec)
